@@ -457,6 +457,26 @@ func (m *Model) Check(req Req, resp []byte, closed bool) (why string, class stri
 				return "", "open-special"
 			}
 		}
+		if rest, vk := virtualSplit(clean); vk != "" {
+			// generated image of a directory: content is judged by C02/C07-C09; here only the framing
+			fi, err := os.Stat(filepath.Join(m.root, rest))
+			if err != nil || !fi.IsDir() {
+				m.ro = nil
+				if size != -1 {
+					return bad("open-file of virtual image of non-directory %q answered size=%d, want -1", req.Path, size)
+				}
+				return "", "open-virtual-missing"
+			}
+			m.ro = &roObj{undefined: true, desc: "virtual"}
+			if size == -1 {
+				m.ro = nil
+				return "", "open-virtual-refused"
+			}
+			if size <= 0 || size%2048 != 0 {
+				return bad("open-file of virtual image %q announced size %d", req.Path, size)
+			}
+			return "", "open-virtual"
+		}
 		real := m.real(req.Path)
 		fi, err := os.Stat(real)
 		if err != nil {
